@@ -38,7 +38,7 @@ def plan(tier, seed):
 class Session(object):
     """Registers concrete samples of a member through the real API and binds every leaf to its concrete value."""
 
-    def __init__(self, cls, params, rng, dim=None):
+    def __init__(self, cls, params, rng, dim=None, member_params=None):
         from PEPit import PEP
         from pv.classes import get_class
         from pv.ref import members
@@ -59,7 +59,7 @@ class Session(object):
             self.blocks = [[i for i, a in enumerate(assign) if a == k] for k in range(d)]
             self.member = members.make_member(cls, params, rng, partition_blocks=self.blocks)
         else:
-            mp = dict(params)
+            mp = dict(member_params if member_params is not None else params)
             self.with_v = cls == "NonexpansiveOperator" and rng.random() < 0.3
             if self.with_v:
                 mp["with_v"] = True
@@ -373,9 +373,35 @@ def run_shard(spec):
             params = {"L": [rng.choice([1.0, 2.0, 0.5, 10.0]) for _ in range(d)]}
         else:
             params = edge_params(cls, rng, real_params(sampler(rng)))
+        # the class parameters are documented attributes: a user may update them after the declaration (before the first
+        # solve, or between two solves of a parameter sweep); the constraints must be those of the CURRENT parameters
+        stricter = None
+        if cls != "BlockSmoothConvexFunction" and rng.random() < 0.15:
+            stricter = dict(params)
+            if params.get("L", float("inf")) < float("inf"):
+                stricter["L"] = params["L"] / 4.0
+                if "mu" in stricter and cls != "SymmetricLinearOperator":
+                    stricter["mu"] = min(stricter["mu"], 0.5 * stricter["L"])
+                elif "mu" in stricter:
+                    stricter["mu"] = min(stricter["mu"], stricter["L"])
+            elif "mu" in params and "beta" not in params:
+                stricter["mu"] = params["mu"] * 4.0 + 0.1
+            elif params.get("M", float("inf")) < float("inf"):
+                stricter["M"] = params["M"] / 4.0
+            elif "beta" in params and "mu" not in params:
+                stricter["beta"] = params["beta"] * 4.0
+            elif "rho" in params:
+                stricter["rho"] = params["rho"] / 4.0
+            elif params.get("D", float("inf")) < float("inf"):
+                stricter["D"] = params["D"] / 4.0
+            else:
+                stricter = None
         try:
             with contextlib.redirect_stdout(io.StringIO()):
-                s = Session(cls, params, rng)
+                s = Session(cls, stricter if stricter is not None else params, rng, member_params=params if stricter is not None else None)
+                s.param_update = None
+                if stricter is not None:
+                    s.param_update = "before_first_build" if (rng.random() < 0.5 or cls in ("ConvexQGFunction", "RsiEbFunction")) else "between_builds"
                 ok, why = s.member.self_test(rng)
                 ok2, why2 = generic_member_test(s.member, rng)
                 if not (ok and ok2):
@@ -383,6 +409,14 @@ def run_shard(spec):
                     notes.append("self-test failed: %s %s %s %s" % (cls, type(s.member).__name__, why, why2))
                     continue
                 kinds = s.run_events(rng.randint(1, 7))
+                if s.param_update == "between_builds":
+                    s._bind_new()
+                    s.f.set_class_constraints()          # constraints of the declared (stricter) parameters: never judged
+                if s.param_update:
+                    for k_, v_ in params.items():
+                        setattr(s.f, k_, v_)             # the documented attributes now hold the parameters the member has
+                    kinds = kinds + ["parameters_updated:" + s.param_update]
+                    counters["parameter_update_sessions"] = counters.get("parameter_update_sessions", 0) + 1
                 s.finish()
                 res = s.evaluate()
         except Exception as e:
